@@ -136,7 +136,8 @@ func (t SSE) Do(w http.ResponseWriter, r *http.Request, exec graphql.GraphExecut
 }
 
 func (c *sseConnection) resetTicker(interval time.Duration) {
-	if interval != 0 {
+	// the ticker only exists for a positive interval (see Do)
+	if interval > 0 {
 		c.mu.Lock()
 		c.keepAliveTicker.Reset(interval)
 		c.mu.Unlock()
